@@ -41,13 +41,19 @@ def run(rep: Report, prog: Program, tier: str) -> None:
     rep.not_decided = ["closed vs half-open interval at the exact boundary beyond the pinned <= operator", "out-of-order timestamps across threads (clock read before the lock)"]
 
     rep.rule("R10.1", "Budget.consume: reject cost<1 first; prune(now); full <=> len+cost > max_retries -> False, no append; else exactly `cost` appends of now -> True; remaining = max(max_retries - len, 0) after prune")
+    budget_shape(rep, "R10.1", prog)
+    rep.floor("R10.1", 4)
+    rest(rep, prog)
+
+
+def budget_shape(rep: Report, rid: str, prog: Program) -> None:
     fi = prog.func(f"{B}.consume")
     rep.analysed(fi.qual)
     paths = engine(prog).paths(fi)
     n_full = n_grant = n_reject = 0
     for p in paths:
         construct = "|".join(p.describe()[-3:])
-        rep.instance("R10.1", "consume|" + construct, {"path": p.describe()})
+        rep.instance(rid, "consume|" + construct, {"path": p.describe()})
         imp = [e for e in p.events if e.kind == "call" and not e.pure]
         problem = None
         if p.exit[0] == "raise":
@@ -113,25 +119,26 @@ def run(rep: Report, prog: Program, tier: str) -> None:
                         # the zero-iteration path of the loop (cost >= 1 makes it infeasible) - fine
                         pass
         if problem:
-            rep.fail("R10.1", "consume|" + problem[:50], f"Budget.consume: {problem}", where=path_where(prog, fi.qual, p), function=fi.qual, path=p.describe())
+            rep.fail(rid, "consume|" + problem[:50], f"Budget.consume: {problem}", where=path_where(prog, fi.qual, p), function=fi.qual, path=p.describe())
         else:
-            rep.ok("R10.1")
+            rep.ok(rid)
     if not (n_full >= 1 and n_grant >= 1 and n_reject == 1):
-        rep.fail("R10.1", "consume|rows-missing", f"Budget.consume: expected a rejecting, a full and a granting path; found reject={n_reject} full={n_full} grant={n_grant}", where=fi.where(), function=fi.qual)
+        rep.fail(rid, "consume|rows-missing", f"Budget.consume: expected a rejecting, a full and a granting path; found reject={n_reject} full={n_full} grant={n_grant}", where=fi.where(), function=fi.qual)
     fr = prog.func(f"{B}.remaining")
     rep.analysed(fr.qual)
     for p in engine(prog).paths(fr):
         imp = [e for e in p.events if e.kind == "call" and not e.pure]
-        rep.instance("R10.1", "remaining", {"result": show(p.exit[1]) if p.exit[0] == "return" else str(p.exit)})
+        rep.instance(rid, "remaining", {"result": show(p.exit[1]) if p.exit[0] == "return" else str(p.exit)})
         want = ("pure", "max", (("op", "-", MR, ("pure", "len", (EV,), ())), ("const", 0)), ())
         want2 = ("pure", "max", (("const", 0), ("op", "-", MR, ("pure", "len", (EV,), ()))), ())
         ok = p.exit[0] == "return" and p.exit[1] in (want, want2) and [e.label for e in imp] == ["lib:time.monotonic", f"{B}._prune"] and imp[1].args == [imp[0].result]
         if ok:
-            rep.ok("R10.1")
+            rep.ok(rid)
         else:
-            rep.fail("R10.1", "remaining|shape", f"Budget.remaining: expected prune(now) then max(max_retries - len(_events), 0); found effects {[e.label for e in imp]} result {show(p.exit[1]) if p.exit[0]=='return' else p.exit}", where=fr.where(), function=fr.qual)
-    rep.floor("R10.1", 4)
+            rep.fail(rid, "remaining|shape", f"Budget.remaining: expected prune(now) then max(max_retries - len(_events), 0); found effects {[e.label for e in imp]} result {show(p.exit[1]) if p.exit[0]=='return' else p.exit}", where=fr.where(), function=fr.qual)
 
+
+def rest(rep: Report, prog: Program) -> None:
     rep.rule("R10.2", "Budget._prune pops from the left while _events[0] <= now - window_s, nothing else; _events has no other writer; `now` is time.monotonic()")
     window_shape(rep, "R10.2", prog, f"{B}._prune", EV, attr(SELF, "window_s"))
     ci = prog.cls(B)
